@@ -136,16 +136,19 @@ func (w *World) Do(spec ReqSpec) HTTPResult { return w.Start(spec).Wait() }
 
 // ClientCfg selects protocol revision, transport and encodings of a client actor.
 type ClientCfg struct {
-	Rev        int    // 3 or 4
-	Transport  string // polling | websocket | webtransport
-	B64        bool
-	JSONP      bool
-	J          string // value of the j parameter (JSONP)
-	Path       string // default /engine.io/
-	Extra      string // extra query string (without leading &)
-	Header     http.Header
-	AcceptEnc  string
-	WSCompress bool
+	Rev       int    // 3 or 4
+	Transport string // polling | websocket | webtransport
+	B64       bool
+	// B64OnlyAtHandshake: the b64 flag is sent with the handshake request only; later polling
+	// requests omit it (the payload format of a session is fixed when it is created)
+	B64OnlyAtHandshake bool
+	JSONP              bool
+	J                  string // value of the j parameter (JSONP)
+	Path               string // default /engine.io/
+	Extra              string // extra query string (without leading &)
+	Header             http.Header
+	AcceptEnc          string
+	WSCompress         bool
 	// CandidateRev, if non-zero, is the EIO value used when opening an upgrade candidate.
 	CandidateRev int
 	// OmitEIO leaves the EIO parameter out (the server then assumes revision 3).
@@ -226,7 +229,7 @@ func (c *Client) query(withSid bool, transport string) string {
 	if c.Cfg.OmitEIO {
 		q = "transport=" + transport
 	}
-	if c.Cfg.B64 {
+	if c.Cfg.B64 && !(c.Cfg.B64OnlyAtHandshake && withSid && transport == "polling") {
 		q += "&b64=1"
 	}
 	if c.Cfg.JSONP {
